@@ -81,10 +81,10 @@ theorem fromExisting_encode (h : Header) (payload : Bytes) (hw : h.WF) :
         | .reject => .none
         | .unmodelled => .unmodelled := by
   rcases hw with ⟨hv, hg⟩ | ⟨hv, hg⟩
-  · simp only [fromExisting, havokOffset_old h payload hv hg, seek_old h payload hv]
+  · simp only [fromExisting, fromExistingWith, havokOffset_old h payload hv hg, seek_old h payload hv]
     rfl
   · have hne : h.version ≠ vOld := by rcases hv with hv | hv <;> rw [hv] <;> decide
-    simp only [fromExisting, havokOffset_new h payload hv hg, seek_new h payload hne]
+    simp only [fromExisting, fromExistingWith, havokOffset_new h payload hv hg, seek_new h payload hne]
     rfl
 
 end Physis.Sklb
